@@ -171,7 +171,18 @@ class _Helper(object):
         self.static = 'staticmethod' in decos
         self.ok = all(d in ('staticmethod',) for d in decos)
         a = node.args
-        if a.vararg or a.kwarg or a.posonlyargs or a.kwonlyargs:
+        self.vararg = None
+        if a.vararg and not (a.kwarg or a.posonlyargs or a.kwonlyargs):
+            # h(self, f, *args) whose body uses args only as f(*args): the caller's extra positional arguments are written in place
+            va = a.vararg.arg
+            uses = [n for n in ast.walk(node) if isinstance(n, ast.Name) and n.id == va]
+            stars = [n for n in ast.walk(node) if isinstance(n, ast.Starred) and isinstance(n.value, ast.Name) and n.value.id == va]
+            calls_ = [c_ for c_ in ast.walk(node) if isinstance(c_, ast.Call) and any(st_ in c_.args for st_ in stars)]
+            if uses and len(uses) == len(stars) and len(calls_) == len(stars):
+                self.vararg = va
+            else:
+                self.ok = False
+        elif a.vararg or a.kwarg or a.posonlyargs or a.kwonlyargs:
             self.ok = False
         self.params = [x.arg for x in a.args]
         self.defaults = dict(zip(self.params[len(self.params) - len(a.defaults):], a.defaults))
@@ -223,6 +234,11 @@ class _Helper(object):
                     return False
                 if any(isinstance(x, ast.Return) for st in s.finalbody for x in _walk_own(st)):
                     return False
+            elif isinstance(s, ast.Try) and not last and not s.finalbody and not _has_return(s.body) and not _has_return(s.orelse) \
+                    and all(_ends(h.body) and self._returns_in_tail(h.body) for h in s.handlers):
+                # `try: A except E: ...; return X` followed by more statements: every handler leaves the helper, so what follows runs exactly when
+                # no handler ran -- it is the try's else part (see _tail)
+                continue
             elif any(isinstance(x, ast.Return) for x in _walk_own(s)):
                 return False          # return inside a loop, or inside a try / with that is not the last statement
         return True
@@ -291,6 +307,17 @@ def _tail(body, mk, at):
         if isinstance(s, (ast.With, ast.AsyncWith)) and i == len(body) - 1 and _has_return([s]):
             ns = copy.copy(s)
             ns.body = _tail(s.body, mk, at)
+            out.append(ns)
+            return out
+        if isinstance(s, ast.Try) and i < len(body) - 1 and _has_return([s]) and not s.finalbody and not _has_return(s.body) and not _has_return(s.orelse) \
+                and all(_ends(h.body) for h in s.handlers):
+            ns = copy.copy(s)
+            ns.handlers = []
+            for h in s.handlers:
+                nh = copy.copy(h)
+                nh.body = _tail(h.body, mk, at)
+                ns.handlers.append(nh)
+            ns.orelse = _tail(list(s.orelse) + list(body[i + 1:]), mk, at)
             out.append(ns)
             return out
         if isinstance(s, ast.Try) and i == len(body) - 1 and _has_return([s]):
@@ -375,6 +402,8 @@ class Inliner(object):
         table = self.cls_helpers if bound else self.mod_helpers.get(self.cur, {})
         own = self.own_helpers.get((self.cur, cls_stack[-1].name), {}) if (bound and cls_stack) else {}
         h = own.get(name) or table.get(name)
+        if not bound and name in getattr(self, 'local_helpers', {}):
+            h = self.local_helpers[name]
         if h is None and name.startswith('_') and '__' in name[1:]:
             h = own.get('__' + name.split('__', 1)[1]) or table.get('__' + name.split('__', 1)[1])
         if h is None or not h.ok:
@@ -390,8 +419,14 @@ class Inliner(object):
         if bound and not h.static:
             params = params[1:]           # self stays self
         args = list(call.args)
+        extra = []
         if len(args) > len(params):
-            return None
+            if getattr(h, 'vararg', None) is None:
+                return None
+            extra = args[len(params):]
+            args = args[:len(params)]
+            if not all(isinstance(x, (ast.Name, ast.Constant)) for x in extra):
+                return None          # (only plain names / constants are written in place of *args)
         binding = {}
         for p, a in zip(params, args):
             binding[p] = a
@@ -442,6 +477,21 @@ class Inliner(object):
             body = body[1:]
         sub = _Subst(mapping)
         body = [sub.visit(s) for s in body]
+        if getattr(h, 'vararg', None) is not None:
+            va = h.vararg
+
+            class _Star(ast.NodeTransformer):
+                def visit_Call(self_, n):
+                    self_.generic_visit(n)
+                    na = []
+                    for x in n.args:
+                        if isinstance(x, ast.Starred) and isinstance(x.value, ast.Name) and x.value.id == va:
+                            na.extend(copy.deepcopy(e_) for e_ in extra)
+                        else:
+                            na.append(x)
+                    n.args = na
+                    return n
+            body = [_Star().visit(s) for s in body]
         for s in body:
             for n in ast.walk(s):
                 if hasattr(n, 'lineno'):
@@ -450,7 +500,21 @@ class Inliner(object):
         return pre, body
 
     # ---- statements
+    KNOWN_NESTED = frozenset(('select', 'prepare_pattern', 'preexec_wrapper', 'write_to_stdout'))
+
     def function(self, fn, cls_stack):
+        # local closures that are only ever CALLED (never handed to anything): extracted pieces of this function, inlined like helpers
+        self.local_helpers = {}
+        for st in ast.walk(fn):
+            if st is not fn and isinstance(st, ast.FunctionDef) and st.name not in self.KNOWN_NESTED and not st.decorator_list:
+                refs = [n for n in ast.walk(fn) if isinstance(n, ast.Name) and n.id == st.name and isinstance(n.ctx, ast.Load)]
+                callpos = set(id(c_.func) for c_ in ast.walk(fn) if isinstance(c_, ast.Call))
+                inner_defs = [d_ for d_ in ast.walk(fn) if d_ is not fn and isinstance(d_, (ast.FunctionDef, ast.AsyncFunctionDef, ast.Lambda)) and d_ is not st]
+                if refs and all(id(r) in callpos for r in refs) and not any(any(r is y for y in ast.walk(d_)) for d_ in inner_defs for r in refs) \
+                        and sum(1 for d_ in ast.walk(fn) if isinstance(d_, ast.FunctionDef) and d_.name == st.name) == 1:
+                    h = _Helper(st, None, self.cur)
+                    if h.ok and h.tail_ok and not any(isinstance(x, (ast.Nonlocal,)) for x in ast.walk(st)):
+                        self.local_helpers[st.name] = h
         names = set(n.id for n in ast.walk(fn) if isinstance(n, ast.Name)) | set(a.arg for a in fn.args.args)
         for _ in range(4):          # helpers calling helpers
             before = self.count
@@ -458,6 +522,17 @@ class Inliner(object):
             if self.count == before:
                 break
             names = set(n.id for n in ast.walk(fn) if isinstance(n, ast.Name)) | set(a.arg for a in fn.args.args)
+        # a local closure every call of which was written out is dropped
+        for name, h in list(self.local_helpers.items()):
+            if not any(isinstance(n, ast.Name) and n.id == name and isinstance(n.ctx, ast.Load) for n in ast.walk(fn)):
+                for parent in ast.walk(fn):
+                    for f_ in ('body', 'orelse', 'finalbody'):
+                        v = getattr(parent, f_, None)
+                        if isinstance(v, list) and h.node in v:
+                            v.remove(h.node)
+                            if not v:
+                                v.append(ast.copy_location(ast.Pass(), h.node))
+        self.local_helpers = {}
 
     def block(self, body, fn, names, cls_stack):
         out = []
@@ -485,6 +560,50 @@ class Inliner(object):
                     s.test = ast.copy_location(ast.UnaryOp(op=ast.Not(), operand=ref), t) if neg else ref
                     out.extend(self.block([pre], fn, names | {nm}, cls_stack))
                     out.append(s)
+                    continue
+            # a helper call anywhere in the expression of a simple statement (or of an if-test / raise), provided everything that is evaluated
+            # before it is call-free: its value is taken into a temporary first (same evaluation order), the temporary assignment is then inlined
+            root = None
+            if isinstance(s, (ast.Expr, ast.Assign, ast.Return)) and s.value is not None:
+                root = s.value
+            elif isinstance(s, ast.Raise) and s.exc is not None:
+                root = s.exc
+            elif isinstance(s, ast.If):
+                root = s.test
+            if root is not None and not (self._callee(root, cls_stack) and isinstance(s, (ast.Expr, ast.Assign, ast.Return))):
+                found = None
+                for x in _eval_order(root):
+                    hit_ = self._callee(x, cls_stack) if isinstance(x, (ast.Call, ast.Await)) else None
+                    if hit_ and hit_[0].tail_ok and hit_[0].node is not fn and (isinstance(x, ast.Await) == hit_[0].is_async):
+                        if isinstance(x, ast.Call) and hit_[0].is_async:
+                            break          # the call of a coroutine function that is awaited: the Await node is the unit
+                        found = x
+                        break
+                    if isinstance(x, (ast.Call, ast.Await, ast.Yield, ast.YieldFrom, ast.NamedExpr, ast.Lambda, ast.ListComp, ast.SetComp, ast.DictComp, ast.GeneratorExp,
+                                      ast.IfExp, ast.BoolOp)):
+                        break          # something with an effect (or a conditional evaluation) comes first
+                if found is not None and isinstance(s, (ast.Assign,)) and any(not _pure_expr(t_) for t_ in s.targets):
+                    found = None
+                if found is not None:
+                    self.tmp += 1
+                    nm = '_v%d' % self.tmp
+                    pre = ast.copy_location(ast.Assign(targets=[ast.Name(id=nm, ctx=ast.Store())], value=found), s)
+                    pre._inl = True
+                    ref = ast.copy_location(ast.Name(id=nm, ctx=ast.Load()), found)
+
+                    class _Rep(ast.NodeTransformer):
+                        def visit(self_, n):
+                            if n is found:
+                                return ref
+                            return ast.NodeTransformer.generic_visit(self_, n)
+                    if isinstance(s, ast.Raise):
+                        s.exc = _Rep().visit(s.exc)
+                    elif isinstance(s, ast.If):
+                        s.test = _Rep().visit(s.test)
+                    else:
+                        s.value = _Rep().visit(s.value)
+                    out.extend(self.block([pre], fn, names | {nm}, cls_stack))
+                    out.extend(self.block([s], fn, names | {nm}, cls_stack) if not isinstance(s, ast.If) else [s])
                     continue
             # a list comprehension whose element calls a helper: written as the loop it abbreviates (`acc = []; for ..: acc.append(elt)`), so that
             # the helper call becomes a statement-level call that can be inlined.  The loop variable must not be a name the function uses otherwise.
@@ -605,6 +724,44 @@ class Inliner(object):
                                 self.function(g, [st])
         ast.fix_missing_locations(tree)
         return tree
+
+
+def _eval_order(e):
+    """sub-expressions in the order in which their evaluation completes"""
+    if isinstance(e, ast.Call):
+        for x in _eval_order(e.func):
+            yield x
+        for a_ in e.args:
+            for x in _eval_order(a_):
+                yield x
+        for k_ in e.keywords:
+            for x in _eval_order(k_.value):
+                yield x
+        yield e
+    elif isinstance(e, ast.Dict):
+        for k_, v_ in zip(e.keys, e.values):
+            if k_ is not None:
+                for x in _eval_order(k_):
+                    yield x
+            for x in _eval_order(v_):
+                yield x
+        yield e
+    elif isinstance(e, (ast.Lambda, ast.ListComp, ast.SetComp, ast.DictComp, ast.GeneratorExp, ast.IfExp, ast.BoolOp)):
+        if isinstance(e, (ast.IfExp, ast.BoolOp)):
+            first = e.test if isinstance(e, ast.IfExp) else e.values[0]
+            for x in _eval_order(first):
+                yield x
+        yield e
+    elif isinstance(e, ast.Compare) and len(e.ops) > 1:
+        for x in _eval_order(e.left):
+            yield x
+        yield e
+    else:
+        for ch in ast.iter_child_nodes(e):
+            if isinstance(ch, ast.expr):
+                for x in _eval_order(ch):
+                    yield x
+        yield e
 
 
 def _pure_expr(e):
